@@ -21,7 +21,7 @@ class FakeTime:
     """Stand-in for the ``time`` module inside comb_spec_searcher modules."""
 
     def __init__(self, script, start=1000.0):
-        self.script = [max(0.001, float(x)) for x in (script or [0.05])]
+        self.script = [max(0.02, float(x)) for x in (script or [0.05])]
         self.now = float(start)
         self.calls = 0
         self.force_after = None  # (number of calls, jump): used to hit a time limit exactly
